@@ -154,3 +154,21 @@ Theorem smdp_primitive : forall m s a streams acts tr rw,
         d = map (fun ep => ((fst ep, 1, rw s a (fst ep)), snd ep)) (tr s a))).
 Proof. exact OptionTheory.smdp_primitive. Qed.
 Print Assumptions smdp_primitive.
+
+(* 8. Multi-step use: whatever the base object has cached on its instance (matrices,
+      absorbing vector, reachable set ... filled by using / planning on it), every tabular view
+      of the derived MDP / sub-task is computed from ITS OWN components and lists. *)
+Theorem derived_views_own : forall extra o ov o' fuel,
+  augment_gen extra o ov = Some o' ->
+  view_tf o' = compute_tf o' /\ view_am o' = compute_am o' /\ view_rf o' = compute_rf o' /\
+  view_dead o' = compute_dead o' /\ view_absvec o' = compute_absvec o' /\
+  view_s0 o' = compute_s0 o' /\ view_reachable fuel o' = compute_reachable fuel o'.
+Proof. exact OptionTheory.derived_views_own. Qed.
+Print Assumptions derived_views_own.
+
+Theorem subtask_views_own : forall extra o so o' fuel,
+  sub_task_gen extra o so = Some o' ->
+  view_rf o' = compute_rf o' /\ view_absvec o' = compute_absvec o' /\ view_tf o' = compute_tf o' /\
+  view_reachable fuel o' = compute_reachable fuel o'.
+Proof. exact OptionTheory.subtask_views_own. Qed.
+Print Assumptions subtask_views_own.
